@@ -174,6 +174,39 @@ def enumerate_small() -> Iterator[Any]:
             yield ["seq", seq]
 
 
+def enumerate_loop_tails() -> Iterator[Any]:
+    """loops that end in a fork (and loops with a break), placed in every kind of surrounding: followed by an event,
+    as the last statement of an enclosing loop body (followed or not inside it), and as the tail of an XOR / AND /
+    OR fork branch — the places where the exit evidence of a loop is assembled differently"""
+    def E(ng: NameGen) -> Any:
+        return ["ev", ng.fresh()]
+
+    bodies = []
+    for op in ("AND", "OR", "XOR"):
+        for nb in (2, 3):
+            bodies.append(("fork", op, nb))
+    bodies.append(("brk", "XOR", 2))
+    for kind, op, nb in bodies:
+        for ctx_kind in ("followed", "nested_last", "nested_then", "in_XOR", "in_AND", "in_OR"):
+            ng = NameGen()
+            a = E(ng)
+            if kind == "fork":
+                tail = ["fork", op, [["seq", [E(ng)]] for _ in range(nb)]]
+            else:
+                tail = ["fork", "XOR", [["seq", [E(ng), ["brk"]]], ["seq", [E(ng)]]]]
+            inner = ["loop", ["seq", [E(ng), tail]]]
+            if ctx_kind == "followed":
+                d = [a, inner, E(ng)]
+            elif ctx_kind == "nested_last":
+                d = [a, ["loop", ["seq", [E(ng), inner]]], E(ng)]
+            elif ctx_kind == "nested_then":
+                d = [a, ["loop", ["seq", [E(ng), inner, E(ng)]]], E(ng)]
+            else:
+                fop = ctx_kind.split("_")[1]
+                d = [a, ["fork", fop, [["seq", [E(ng), inner]], ["seq", [E(ng)]]]], E(ng)]
+            yield ["seq", d]
+
+
 # ------------------------------------------------------------------------------------------------
 # corpus
 
